@@ -20,20 +20,24 @@ def kindOverrides : PolicyKind → List (String × Option Int)
   | .follower => followerOverrides
   | _ => []
 
+/-- TrustAll / TrustedPeers of the crdt `Config` after the setting's sources -/
+def modelCfg (srcs : List Source) : TrustCfg := trustOf Gen.cfgShape srcs
+
 /-- `IsTrustedPeer(p)` of the consensus component under a trust setting -/
 def modelTrusted (ts : TrustSetting) (self p : Nat) : Bool :=
-  trustedAfter (shapeOf ts.mode) ts.raw ts.ops self p
+  trustedAfterCfg (shapeOf ts.mode) (modelCfg ts.srcs) ts.ops self p
 
 /-- what the caller of `i` observes when the serving peer's table is the shipped one with `ovs` applied -/
 def modelObs (i : RpcInput) (ovs : List (String × Option Int)) : Obs :=
   -- an unregistered name never reaches authorization: gorpc answers "no such method"
   if !i.registered then .passed
-  else if passes (Gen.serverGuarded i.tracing) Gen.closure (applyOverrides Gen.policy ovs) (shapeOf i.ts.mode) i.ts.raw i.ts.ops i.self i.caller i.ep
+  else if passes (Gen.serverGuarded i.tracing) Gen.closure (applyOverrides Gen.policy ovs) (shapeOf i.ts.mode)
+      (modelCfg i.ts.srcs) i.ts.ops i.self i.caller i.ep
   then .passed else .refused
 
 /-- the observer's pinset after the messages -/
 def modelRep (i : RepInput) : List Nat :=
-  let cfg := parseTrusted i.ts.raw []
+  let cfg := modelCfg i.ts.srcs
   deliverAll (shapeOf i.ts.mode) cfg i.self (stateAfter (shapeOf i.ts.mode) cfg i.ts.ops) i.before i.msgs
 
 end CV.C07
